@@ -138,8 +138,8 @@ def configs(ctx):
     if ctx.quick:
         return [('single', _cfg_single('quick'), 6, 0.6),
                 ('pair', _cfg_pair('quick'), 4, 0.4)]
-    return [('single', _cfg_single('thorough'), 9, 0.6),
-            ('pair', _cfg_pair('thorough'), 6, 0.4)]
+    return [('single', _cfg_single('thorough'), 8, 0.6),
+            ('pair', _cfg_pair('thorough'), 5, 0.4)]
 
 
 NONTRIVIAL = ['evals_with_request', 'create_requests', 'delete_requests',
@@ -172,12 +172,81 @@ def confirm(spec, hist, clause, site):
             % (clause, site, hist, o1[0]))
 
 
+def bisim_check(spec, roots, depth):
+    """Validate the canonical key: every pair of distinct histories of length
+    <= depth (beyond the root) that the key merges must offer the same menu and
+    merge again after every event (exhaustive on those levels, no dedup)."""
+    def succ(h, ev):
+        w = statex.build(spec, h)
+        mark = len(w.viol)
+        ok, exc = statex.step(spec, w, ev)
+        keys = sorted({(v['clause'], v['site']) for v in w.viol[mark:]})
+        if not ok:
+            return ('exc', exc['site'], exc['type']), keys
+        return statex.digest(spec.canon(w)), keys
+
+    level = [tuple(r) for r in roots]
+    hists = list(level)
+    for _ in range(depth):
+        nxt = []
+        for h in level:
+            w = statex.build(spec, h)
+            nxt.extend(h + (ev,) for ev in spec.enabled(w))
+        hists.extend(nxt)
+        level = nxt
+    groups = {}
+    for h in hists:
+        groups.setdefault(statex.digest(spec.canon(statex.build(spec, h))),
+                          []).append(h)
+    pairs = 0
+    for hs in groups.values():
+        if len(hs) < 2:
+            continue
+        a, b = hs[0], hs[-1]
+        menu = spec.enabled(statex.build(spec, a))
+        if menu != spec.enabled(statex.build(spec, b)):
+            raise statex.HarnessError('canonical key merges states with '
+                                      'different menus: %r / %r' % (a, b))
+        for ev in menu:
+            if succ(a, ev) != succ(b, ev):
+                raise statex.HarnessError(
+                    'canonical key is too coarse: %r and %r merge but differ '
+                    'after %r' % (a, b, ev))
+        pairs += 1
+    return {'histories': len(hists), 'merged_groups_checked': pairs,
+            'depth': depth}
+
+
+def sample_trace(cfg, hist):
+    """One history executed for real, with the requests each evaluation made."""
+    spec = MonSpec(cfg)
+    w = spec.new_world()
+    steps = []
+    for ev in hist:
+        spec.apply(w, ev)
+        if ev[0] == 'eval':
+            steps.append({
+                'event': list(ev),
+                'requests': [[c['url'], c['payload'].get('instances')
+                              if c['payload'] else None, c['answer']]
+                             for c in w.calls],
+                'instances_after': {n: len(v) for n, v in w.inst.items()},
+                'tokens_after': {n: round(c['available'], 4)
+                                 for n, c in w.state['monitors'].items()},
+                'suspended': sorted(w.state['suspended'])})
+        else:
+            steps.append({'event': list(ev)})
+    return {'history_with_observations': steps, 'violations': len(w.viol)}
+
+
 def run(ctx):
     cov = {'states': 0, 'transitions': 0, 'samples': [], 'caps_hit': [],
            'configs': {}, 'exhaustive': True, 'nontrivial_counters': {}}
     violations = []
     for name, (cfg, roots), depth, share in configs(ctx):
         spec = MonSpec(cfg)
+        bisim = bisim_check(spec, roots, 2 if ctx.quick else 3)
+        ctx.log('%s: canonical key check %r' % (name, bisim))
         res = statex.bfs(spec, depth, max_dev=0, workers=ctx.workers,
                          time_cap=ctx.budget_s * share * 0.9,
                          progress=ctx.log, init_histories=roots, chunk=32)
@@ -195,6 +264,7 @@ def run(ctx):
                             ('names', 'answers', 'ticks', 'counts',
                              'max_instances', 'delete', 'restart')},
             'probes_from_every_state': ['drain', 'converge'],
+            'canonical_key_bisimulation_check': bisim,
             'final_level_probed': bool(getattr(res, 'final_probe_pass',
                                                False)) or res.exhausted,
             'probe_evaluations': probe_evals,
@@ -215,6 +285,17 @@ def run(ctx):
                 'detail': v['detail'], 'count': v['count'],
                 'replay': {'config': name, 'history': v['history']},
             })
+    cov['samples'][:0] = [
+        sample_trace(_cfg_single(ctx.tier)[0], [
+            ('mon', A, 2, 'lifo'), ('eval', 'ok'), ('die', A, 'old'),
+            ('eval', '404'), ('tick', 900), ('extra', A), ('extra', A),
+            ('eval', 'ok'), ('mon', A, 1, 'lifo'), ('eval', 'ok')]),
+        sample_trace(_cfg_single(ctx.tier)[0], [
+            ('mon', A, 1, None), ('eval', 'ok'), ('die', A, 'old'),
+            ('eval', 'ok'), ('die', A, 'old'), ('eval', 'ok'),
+            ('tick', 900), ('eval', 'ok'), ('tick', 900), ('eval', 'boom'),
+            ('eval', 'ok')]),
+    ]
     cnt = cov['nontrivial_counters']
     cov['depth_completed'] = min(c['depth_completed']
                                  for c in cov['configs'].values())
